@@ -219,6 +219,13 @@ func init() {
 	} {
 		checks[prop].Gen = g
 	}
-	checks["C19"] = &Check{Prop: "C19", Gen: genC19, Impl: runImplAPI, Theorems: []string{"C19.get_crash_iff", "C19.get_returns_requested", "C19.parse_ne_undefined", "C19.decodeEntries_bounded", "C19.lookups_never_crash"},
+	checks["C19"] = &Check{Prop: "C19", Gen: genC19, Impl: runImplAPI,
+		// command level: histories in which one of Goit's own files is damaged, every read-only command is run on
+		// the damaged repository, and the file is put back
+		Hist: func(ctx *Ctx) *HistCfg {
+			return &HistCfg{Prop: "C19", Cases: tierN(ctx, 120, 1200), MinSteps: 6, MaxSteps: 18, FreshPct: 5,
+				W:       Weights{"damage": 30, "write": 10, "add-all": 8, "commit": 10, "branch": 3, "switch": 2, "reset": 2, "config": 2, "branch-rename": 1},
+				Oracles: []HistOracle{orC19}, NoDerive: true}
+		}, Theorems: []string{"C19.get_crash_iff", "C19.get_returns_requested", "C19.parse_ne_undefined", "C19.decodeEntries_bounded", "C19.lookups_never_crash"},
 		Rule: "valid files produced for the test (objects, trees, commits, index, HEAD, branch files, config, reflog) and every thinned truncation, random single-byte deletions and substitutions (0x00 0x0a 0x20 0x2f 0xff digits, +-1), swapped and self-referential object files, header corner cases; each decoder is called in-process under recover and must answer ok/err exactly like the model"}
 }
